@@ -35,81 +35,85 @@ META = {
     "engines": ["refmodel", "storage_exec", "histgen"],
 }
 REQUIRED = ("records", "rejected_ops", "worker_state_comparisons", "prefix_replays", "snapshot_restores", "interposed_appends", "rejected_mid_batch",
-            "thread_schedules_both_paused", "cluster_gap_scenarios")
+            "thread_schedules_both_paused", "cluster_gap_scenarios", "redis_prefix_scenarios", "logs_with_a_pickled_worker")
 SHARDS = {"quick": 12, "thorough": 16}
 WATCHDOG_S = {"quick": 900, "thorough": 4 * 3600}
 FLAVOURS = ["file", "file_openlock", "redis", "file_snapshot"]
 
 
+from optuna.storages.journal._base import BaseJournalBackend, BaseJournalSnapshot
+
+class HookedBackend(BaseJournalBackend):
+    """Delegates to a real backend; `after_append` (one-shot) runs between the owner's append and its read-back."""
+
+    def __init__(self, inner: Any) -> None:
+        self.inner = inner
+        self.after_append = None
+        self.fail_next_read = None
+        self.n_appended = 0
+
+    def read_logs(self, log_number_from: int):
+        if self.fail_next_read is not None:
+            exc, self.fail_next_read = self.fail_next_read, None
+            raise exc
+        return self.inner.read_logs(log_number_from)
+
+    def append_logs(self, logs):
+        self.inner.append_logs(logs)
+        self.n_appended += len(logs)
+        hook, self.after_append = self.after_append, None
+        if hook is not None:
+            hook()
+
+class HookedSnapshotBackend(HookedBackend, BaseJournalSnapshot):
+    def __init__(self, inner: Any, snap: dict | None = None) -> None:
+        super().__init__(inner)
+        self.snap = snap  # harness-side snapshot store for backends that have none
+
+    def save_snapshot(self, snapshot: bytes) -> None:
+        if self.snap is not None:
+            self.snap["bytes"] = snapshot
+            self.snap.setdefault("history", []).append(snapshot)
+        else:
+            self.inner.save_snapshot(snapshot)
+            self.saved = getattr(self, "saved", [])
+            self.saved.append(snapshot)
+
+    def load_snapshot(self):
+        if self.snap is not None:
+            return self.snap.get("bytes")
+        return self.inner.load_snapshot()
+
+class PrefixBackend(BaseJournalBackend):
+    """Read-only view of the first `limit` records, handed out in batches of at most `batch()` records."""
+
+    def __init__(self, inner: Any, limit: int, batch) -> None:
+        self.inner, self.limit, self.batch = inner, limit, batch
+
+    def read_logs(self, log_number_from: int):
+        logs = self.inner.read_logs(log_number_from)
+        logs = logs[: max(0, self.limit - log_number_from)]
+        return logs[: self.batch()]
+
+    def append_logs(self, logs):
+        raise AssertionError("read-only")
+
+class FixedSnapshotPrefix(PrefixBackend, BaseJournalSnapshot):
+    def __init__(self, inner, limit, batch, snapshot: bytes) -> None:
+        super().__init__(inner, limit, batch)
+        self.snapshot = snapshot
+
+    def save_snapshot(self, snapshot: bytes) -> None:
+        pass
+
+    def load_snapshot(self):
+        return self.snapshot
+
+
+
+
+
 def _mk_wrappers():
-    from optuna.storages.journal._base import BaseJournalBackend, BaseJournalSnapshot
-
-    class HookedBackend(BaseJournalBackend):
-        """Delegates to a real backend; `after_append` (one-shot) runs between the owner's append and its read-back."""
-
-        def __init__(self, inner: Any) -> None:
-            self.inner = inner
-            self.after_append = None
-            self.fail_next_read = None
-            self.n_appended = 0
-
-        def read_logs(self, log_number_from: int):
-            if self.fail_next_read is not None:
-                exc, self.fail_next_read = self.fail_next_read, None
-                raise exc
-            return self.inner.read_logs(log_number_from)
-
-        def append_logs(self, logs):
-            self.inner.append_logs(logs)
-            self.n_appended += len(logs)
-            hook, self.after_append = self.after_append, None
-            if hook is not None:
-                hook()
-
-    class HookedSnapshotBackend(HookedBackend, BaseJournalSnapshot):
-        def __init__(self, inner: Any, snap: dict | None = None) -> None:
-            super().__init__(inner)
-            self.snap = snap  # harness-side snapshot store for backends that have none
-
-        def save_snapshot(self, snapshot: bytes) -> None:
-            if self.snap is not None:
-                self.snap["bytes"] = snapshot
-                self.snap.setdefault("history", []).append(snapshot)
-            else:
-                self.inner.save_snapshot(snapshot)
-                self.saved = getattr(self, "saved", [])
-                self.saved.append(snapshot)
-
-        def load_snapshot(self):
-            if self.snap is not None:
-                return self.snap.get("bytes")
-            return self.inner.load_snapshot()
-
-    class PrefixBackend(BaseJournalBackend):
-        """Read-only view of the first `limit` records, handed out in batches of at most `batch()` records."""
-
-        def __init__(self, inner: Any, limit: int, batch) -> None:
-            self.inner, self.limit, self.batch = inner, limit, batch
-
-        def read_logs(self, log_number_from: int):
-            logs = self.inner.read_logs(log_number_from)
-            logs = logs[: max(0, self.limit - log_number_from)]
-            return logs[: self.batch()]
-
-        def append_logs(self, logs):
-            raise AssertionError("read-only")
-
-    class FixedSnapshotPrefix(PrefixBackend, BaseJournalSnapshot):
-        def __init__(self, inner, limit, batch, snapshot: bytes) -> None:
-            super().__init__(inner, limit, batch)
-            self.snapshot = snapshot
-
-        def save_snapshot(self, snapshot: bytes) -> None:
-            pass
-
-        def load_snapshot(self):
-            return self.snapshot
-
     return HookedBackend, HookedSnapshotBackend, PrefixBackend, FixedSnapshotPrefix
 
 
@@ -204,6 +208,18 @@ def run_log(ctx: Ctx, rng, flavour: str, lidx: int) -> None:
         k = rng.randint(2, 4)
         bks = [hooked() for _ in range(k)]
         workers = [JournalStorage(b) for b in bks]
+        if flavour != "redis" and rng.random() < 0.5:
+            # one worker is an unpickled copy of another (how a storage reaches a worker process): it must be a worker of its
+            # own, i.e. never be told about operations the original issued
+            import pickle
+
+            src = rng.randrange(k)
+            workers.append(pickle.loads(pickle.dumps(workers[src])))
+            bks.append(workers[-1]._backend)  # the copy's own (unpickled) hooked backend
+            if snap_store is not None:
+                bks[-1].snap = snap_store
+            k += 1
+            ctx.count("logs_with_a_pickled_worker")
         threads = [[None, ThreadRunner()] if rng.random() < 0.5 else [None] for _ in range(k)]
         for tl in threads:
             runners += [t for t in tl if t is not None]
@@ -493,6 +509,51 @@ def _public_state(storage, sid) -> list:
     return out
 
 
+def redis_two_prefixes(ctx: Ctx, rng, idx: int) -> None:
+    """Two journals with different key prefixes on ONE Redis server, snapshots at many positions: a fresh worker of either
+    journal (snapshot + tail) must see its own journal's state."""
+    import fakeredis
+    import optuna.storages.journal._storage as JS
+    from optuna.storages import JournalStorage
+    from optuna.storages import journal
+    from optuna.study import StudyDirection
+
+    server = fakeredis.FakeServer()
+    old_interval = JS.SNAPSHOT_INTERVAL
+    JS.SNAPSHOT_INTERVAL = rng.randint(2, 4)
+    try:
+        def mk(prefix):
+            b = journal.JournalRedisBackend("redis://localhost", prefix=prefix)
+            b._redis = fakeredis.FakeStrictRedis(server=server)
+            return JournalStorage(b)
+
+        expect = {}
+        live = {p: mk(p) for p in ("a", "b")}
+        for p, st in live.items():
+            sid = st.create_new_study([StudyDirection.MINIMIZE], f"study-of-{p}")
+            expect[p] = {"name": f"study-of-{p}", "n": 0}
+        for _ in range(rng.randint(8, 20)):
+            p = rng.choice(["a", "b"])
+            st = live[p]
+            sid = st.get_study_id_from_name(expect[p]["name"])
+            st.create_new_trial(sid)
+            expect[p]["n"] += 1
+        ctx.count("redis_prefix_scenarios")
+        case = {"flavour": "redis_two_prefixes", "index": idx, "seed": ctx.seed, "snapshot_interval": JS.SNAPSHOT_INTERVAL}
+        ctx.case(case, True)
+        for p in ("a", "b"):
+            fresh = mk(p)
+            names = [s_.study_name for s_ in fresh.get_all_studies()]
+            n = len(fresh.get_all_trials(fresh.get_study_id_from_name(expect[p]["name"]))) if expect[p]["name"] in names else -1
+            ctx.count("snapshot_restores")
+            if names != [expect[p]["name"]] or n != expect[p]["n"]:
+                ctx.violation({"kind": "snapshot_restore_differs", "flavour": "redis", "with_snapshots": True, "two_prefixes_on_one_server": True},
+                              f"a fresh worker on journal prefix {p!r} sees studies {names} with {n} trials, expected [{expect[p]['name']}] with {expect[p]['n']}", case)
+                return
+    finally:
+        JS.SNAPSHOT_INTERVAL = old_interval
+
+
 def redis_cluster_gap(ctx: Ctx, rng, idx: int) -> None:
     """use_cluster=True appends are INCR then SET.  Writer A is parked between the two (harness-side proxy on its redis
     client), writer B appends the next record, reader C syncs meanwhile; then A is released.  Everybody must converge."""
@@ -584,6 +645,9 @@ def run(ctx: Ctx) -> None:
     if ctx.shard[0] % 4 == 1 or ctx.shard[1] == 1:
         for i in range(ctx.pick(2, 20)):
             redis_cluster_gap(ctx, ctx.rng("gap", ctx.shard[0], i), i)
+    if ctx.shard[0] % 4 == 0 or ctx.shard[1] == 1:
+        for i in range(ctx.pick(3, 40)):
+            redis_two_prefixes(ctx, ctx.rng("prefix", ctx.shard[0], i), i)
 
 
 def replay(ctx: Ctx, w: dict) -> None:
